@@ -100,6 +100,9 @@ def lengths_of(raw, plain=None):
     return m["content_len"], None, None
 
 
+AGENT_MAX = [None]  # msgMaxSize the agent announces (its own receive limit)
+
+
 def one_world(R, level, label, param, auth_pw=rig.AUTH_PW, priv_pw=rig.PRIV_PW, engine_id=None, boots=1, tshift=0, ops=("get",), pad=0, cover=None, user=rig.USER, extra=0, small_ids=False, switch_from=None):
     global BASE
     if small_ids:
@@ -123,6 +126,8 @@ def _one_world(R, level, label, param, auth_pw, priv_pw, engine_id, boots, tshif
         (1, 3, 6, 1, 2, 1, 2, 1, 0): ("int", 3),
     }
     akw = {"boots": boots}
+    if AGENT_MAX[0]:
+        akw["max_size"] = AGENT_MAX[0]
     if engine_id is not None:
         akw["engine_id"] = engine_id
     agent_clock = env.Clock()
@@ -151,7 +156,7 @@ def _one_world(R, level, label, param, auth_pw, priv_pw, engine_id, boots, tshif
         w.agent.requests.clear()
         R.mon["clients_switched_from_another_user"] += 1
     c = w.client
-    case = {"level": level, "label": label, "param": param, "auth_pw": "hex:" + bytes(auth_pw).hex(), "priv_pw": "hex:" + bytes(priv_pw).hex(), "engine_id": "hex:" + (engine_id or b"").hex(), "boots": boots, "tshift": tshift, "ops": list(ops), "pad": pad, "user": user, "extra": extra, "small_ids": small_ids, "switch_from": switch_from}
+    case = {"level": level, "label": label, "param": param, "auth_pw": "hex:" + bytes(auth_pw).hex(), "priv_pw": "hex:" + bytes(priv_pw).hex(), "engine_id": "hex:" + (engine_id or b"").hex(), "boots": boots, "tshift": tshift, "ops": list(ops), "pad": pad, "user": user, "extra": extra, "small_ids": small_ids, "switch_from": switch_from, "agent_max": AGENT_MAX[0]}
     R.case(("c10", level, label, param, switch_from), True, sample=case if R.evaluations % 211 == 0 else None)
     for op in ops:
         try:
@@ -326,6 +331,20 @@ def run(R):
             eng = bytes([0x80]) + bytes(rng.getrandbits(8) for _ in range(n - 1))
             one_world(R, level, "eidlen", n, engine_id=eng, ops=("get", "set"))
             R.mon["engine_id_lengths_swept"] += 1
+    # (f) agents that announce a small msgMaxSize (their RECEIVE limit) and answer with
+    # responses larger than that
+    for level in levels4:
+        for amax in (484, 500, 1472):
+            for pad in (300, 600, 1500):
+                k += 1
+                if not R.mine(k):
+                    continue
+                AGENT_MAX[0] = amax
+                try:
+                    one_world(R, level, "agentmax%d" % amax, pad, ops=("get", "set"), pad=pad)
+                    R.mon["responses_larger_than_the_agents_msgmaxsize"] += 1
+                finally:
+                    AGENT_MAX[0] = None
     # (e) one client object used as another user first (other hash / other level)
     for level in levels4:
         for prev in rig.V3_LEVELS:
@@ -362,6 +381,7 @@ def replay(R, v):
     if c.get("label") == "reboot":
         reboot_scenario(R, c["level"])
         return
+    AGENT_MAX[0] = c.get("agent_max")
     one_world(
         R, c["level"], c["label"], c["param"],
         auth_pw=bytes.fromhex(c["auth_pw"][4:]), priv_pw=bytes.fromhex(c["priv_pw"][4:]),
